@@ -13,6 +13,11 @@ A script is a list of operations performed by the "device and scheduler":
   ["race", m]          message m arrives in the same loop iteration in which the next timeout
                        fires, immediately before it (the suspended request has not resumed yet)
   ["cancel", w]        the task of request w is cancelled
+  ["send", e, opts]    Companion: the client pushes event e with send_opack (fire-and-forget, nothing awaited)
+  ["listeners", spec]  MRP: the listener set of the run (first operation)
+request opts: "fault": "write"/"processor" makes the send side raise for that request; "reuse": j re-sends
+the message object of request j (MRP).  Message m: m["xfor"] = w / m["efor"] = e gives a Companion frame the
+"_x" of request w / of pushed event e without making it their answer.
 After the script every request still pending is left to time out.
 A message m is a dict; m["for"] = w means "this is the device's answer to request w".
 """
@@ -285,6 +290,10 @@ def comp_x(m, wire):
         if m.get(k) is not None:
             v = wire.get(m[k], wire.get(str(m[k])))
             return v
+    if m.get("efor") is not None:
+        # the id that the fire-and-forget event m["efor"] of the client carried (the device answers events it
+        # does not handle with a Response frame, "No request handler")
+        return wire.get("e%d" % m["efor"])
     return m.get("xid")
 
 
@@ -329,6 +338,20 @@ class CompanionEnv(Env):
 
     def value(self, r):
         return r.get("tag")
+
+    def send(self, e, opts):
+        """fire-and-forget: an event sent with send_opack (no answer is awaited)"""
+        data = {"_i": "evt%d" % e, "_t": 1, "_c": {}}
+        if opts.get("with_x"):
+            data["_x"] = 7          # the caller supplies the id itself: none is allocated
+        self.cur = "e%d" % e
+        self.fault = opts.get("fault")
+        try:
+            self.proto.send_opack(self.FrameType.E_OPACK, data)
+        except SendFault:
+            pass
+        self.cur = None
+        self.fault = None
 
     def encode(self, m):
         kind = m["kind"]
@@ -508,6 +531,9 @@ async def drive(transport, script):
             if t is not None and not t.done():
                 t.cancel()
             await settle()
+        elif kind == "send":
+            env.send(op[1], op[2] if len(op) > 2 else {})
+            await settle()
         elif kind == "timeout":
             if not await fire():
                 stuck = True
@@ -569,6 +595,8 @@ class Case:
                     self.events.append(("msg", cur[1]))
                 elif cur[0] == "cancel":
                     self.events.append(("cancel", cur[1]))
+                elif cur[0] == "send" and not (cur[2] if len(cur) > 2 else {}).get("with_x"):
+                    self.events.append(("send", cur[1]))
                 self.cur_at = at
             elif e[0] == "listen":
                 self.listens.append((e[1], e[2], e[3]))
@@ -803,7 +831,9 @@ def model_events(case):
     out = []
     for ev in case.events:
         k = ev[0]
-        if k == "reqfail":
+        if k == "send":
+            out.append("CSend")
+        elif k == "reqfail":
             out.append("%sReqFail %s" % ({"mrp": "M", "companion": "C", "http": "H", "rtsp": "R"}[t], cw(ev[1])))
         elif k == "req":
             w = ev[1]
@@ -952,10 +982,14 @@ def coq_case(case):
         types = sorted(mrp_reference_listeners(case))
         return "(%s, %s, %s, %s)" % (ev, common.clist(types, common.cN), ocs, hs)
     if case.t == "companion":
-        first = None
-        for w in sorted(case.req_at, key=lambda w: case.req_at[w]):
-            first = case.obs["wire"].get(str(w))
-            break
+        first = None          # the value of the transaction counter before the first operation that uses one
+        for e in case.events:
+            if e[0] in ("req", "reqfail"):
+                first = case.obs["wire"].get(str(e[1]))
+                break
+            if e[0] == "send":
+                first = case.obs["wire"].get("e%d" % e[1])
+                break
         return "(%s, %s, %s, %s)" % (common.cN(first or 0), ev, ocs, hs)
     return "(%s, %s)" % (ev, ocs)
 
@@ -1013,7 +1047,7 @@ def unsol_msg(t, rng, tag, variant=0, xfor=None, ukind=None):
 
 
 def build(t, base, timeout_w=None, timeout_pos=None, unsol_pos=None, variant=0, rng=None, xfor=None, ukind=None,
-          reuse=None, fault=None):
+          reuse=None, fault=None, send_pos=None, eresp_pos=None, eresp_em=True):
     """base: list of ("q", i) / ("a", i).  Returns a script."""
     script = []
     tag = 1
@@ -1024,6 +1058,13 @@ def build(t, base, timeout_w=None, timeout_pos=None, unsol_pos=None, variant=0, 
                 script.append(["msg", [unsol_msg(t, rng, 90, variant, xfor, ukind)]])
         if timeout_pos == pos:
             script.append(["timeout"])
+        if send_pos == pos:
+            script.append(["send", 0, {}])            # the client pushes an event, no answer awaited
+        if eresp_pos == pos:
+            m = {"tag": 95, "kind": "resp", "ft": 8, "efor": 0}     # ... the device answers it all the same
+            if eresp_em:
+                m["em"] = True
+            script.append(["msg", [m]])
         if kind == "a" and fault is not None and fault[0] == i:
             continue                  # a request that was never sent is never answered
         if kind == "q":
@@ -1102,6 +1143,12 @@ def exhaustive_scripts(t, nmax):
                                 continue
                             out.append(build(t, base, fault=(w, kind), timeout_w=w2, timeout_pos=apos))
             if t == "companion":
+                # fire-and-forget send_opack of an event at every position, the device answering that event with
+                # a Response frame (error "No request handler", or a plain one) at every later position
+                for sp in range(L + 1):
+                    out.append(build(t, base, send_pos=sp))
+                    for ep in range(sp, L + 1):
+                        out.append(build(t, base, send_pos=sp, eresp_pos=ep, eresp_em=bool((sp + ep) % 2)))
                 # an event / a request from the device / an event with a foreign id, whose "_x" equals the
                 # transaction id of request x (or of nobody), at every position
                 for up in range(L + 1):
@@ -1194,6 +1241,7 @@ def random_script(t, rng, nmax):
 
     if t == "mrp" and rng.random() < 0.7:
         script.append(["listeners", rng.choice(LSETS)])
+    pending_events = []
     steps = rng.randint(n, 3 * n + 4)
     nreq = 0
     for _ in range(steps):
@@ -1249,6 +1297,22 @@ def random_script(t, rng, nmax):
                 script.append(["race", batch[0]])
             else:
                 script.append(["msg", batch])
+        elif t == "companion" and r < 0.80:
+            e = sum(1 for op in script if op[0] == "send")
+            o = {}
+            if rng.random() < 0.15:
+                o["with_x"] = True
+            elif rng.random() < 0.1:
+                o["fault"] = "write"
+            script.append(["send", e, o])
+            if not o and rng.random() < 0.7:
+                pending_events.append(e)
+        elif t == "companion" and r < 0.82 and pending_events:
+            e = pending_events.pop(rng.randrange(len(pending_events)))
+            m = {"tag": newtag(), "kind": "resp", "ft": 8, "efor": e}
+            if rng.random() < 0.6:
+                m["em"] = True
+            script.append(["msg", [m]])
         elif r < 0.83:
             script.append(["timeout"])
         elif r < 0.88 and issued:
